@@ -219,20 +219,50 @@ def select_rule(run, fn):
                 id(x) not in seen:
             ksrc = src(peel(x['ch'][1]))
             seen[id(x)] = (x, None, ksrc, None)
+    nonlin = [v for v in seen.values() if v[1] is None]
+    if nonlin:
+        # quantile index: j = ceil(Q * (n-1)) with Q = q or 1 - q, 0 <= q <= 1 tested on the path,
+        # n the valid count and n >= 1 on the path: so j <= n - 1 < len.  Read from the decision
+        # table with the lets expanded, so variable names and statement order do not matter.
+        import re as _re
+        import dtree as _dt
+        import nullrules as _N
+        from algebra import defs_of
+        NV = 'self.titer().count_valid()'
+        t = _N.tbl(fn)
+        nsel, bad = 0, []
+        for cs, leaf, ef in t:
+            defs = defs_of(ef)
+            pure = {k_: v_ for k_, v_ in defs.items() if 'select_nth' not in v_ and 'collect_trusted' not in v_}
+
+            def expand(x, depth=0):
+                for k_, v_ in pure.items():
+                    x = _re.sub(r"\b%s\b(?!')" % k_, lambda _m: v_, x)
+                return x if depth > 3 or not any(_re.search(r"\b%s\b" % k_, x) for k_ in pure) else expand(x, depth + 1)
+            for e_ in ef:
+                m_ = _re.search(r'select_nth_unstable_by\((.*), [\w:|, .()]+\)$', expand(e_))
+                if 'select_nth_unstable_by(' not in e_:
+                    continue
+                nsel += 1
+                arg = m_.group(1) if m_ else '?'
+                forms = {'(%s * %s).ceil().usize()' % tuple(sorted((Q, '(%s - 1)' % NV)))
+                         for Q in ('q', '(1. - q)')}
+                in_range = '0...=1..contains(q)' in cs
+                cc = [c for c in cs if NV in c and _dt.holds(c, {NV: 0}) is not None]
+                positive = bool(cc) and not all(_dt.holds(c, {NV: 0}) for c in cc)
+                if arg not in forms or not in_range or not positive:
+                    bad.append('%s under %s' % (arg[:70], sorted(cs)[:3]))
+        run.ob('IDX.select', fn, 'select_nth_unstable_by(ceil(Q * (n - 1)))', nsel >= len(nonlin) and not bad,
+               loc(nonlin[0][0]), ('k = ceil(Q*(n-1)) with Q in {q, 1-q}, q in [0,1] tested on the path, '
+                                   'n = valid count >= 1 on the path: k <= n-1 < len; %d selection(s) on %d path(s)'
+                                   % (len(nonlin), nsel)) if not bad else 'not of that form: %s' % bad[:2])
     for node, ok, k, ln in seen.values():
         if ok is None:
-            # quantile index: j = ceil((n-1)*q) with 0 <= q <= 1 (tensure!) so j <= n-1 < len
-            fnsrc = src(fn.hir)
-            ok2 = 'contains(&q)' in fnsrc and ('len_1 * q' in fnsrc) and '(n - 1)' in fnsrc and \
-                k == 'j' and 'q_idx.ceil()' in fnsrc
-            run.ob('IDX.select', fn, 'select_nth_unstable_by(%s) @%s' % (k, loc(node).split(':')[-1]),
-                   ok2, loc(node), 'k = ceil((n-1)*q), q in [0,1] by the tensure! at entry, '
-                   'n = count_valid <= len, n >= 1 after the n == 0 return (audited idiom)')
-        else:
-            run.ob('IDX.select', fn, 'select_nth_unstable_by(%s) @%s' % (
-                S._clean(lia.show(k)) if k is not None else '?', loc(node).split(':')[-1]),
-                ok, loc(node), 'k %s length %s' % ('<' if ok else 'NOT proved <',
-                                                   S._clean(lia.show(ln))))
+            continue
+        run.ob('IDX.select', fn, 'select_nth_unstable_by(%s)' % (
+            S._clean(lia.show(k)) if k is not None else '?'),
+            ok, loc(node), 'k %s length %s' % ('<' if ok else 'NOT proved <',
+                                               S._clean(lia.show(ln))))
 
 
 def checked_rule(run, fn, sites):
